@@ -253,6 +253,16 @@ func (c *CheckCtx) run() int {
 		timeout = c.P.TimeoutMs(c.Tier)
 	}
 	var runs []*HarnessRun
+	if only := os.Getenv("GOSYM_ONLY"); only != "" {
+		ore := regexp.MustCompile(only)
+		var keep []*ssa.Function
+		for _, f := range fns {
+			if ore.MatchString(f.Name()) {
+				keep = append(keep, f)
+			}
+		}
+		fns = keep
+	}
 	for _, f := range fns {
 		runs = append(runs, &HarnessRun{Name: f.Pkg.Pkg.Name() + "." + f.Name(), Fn: f, MaxPaths: c.P.MaxPaths})
 	}
